@@ -28,8 +28,13 @@ CLAIMED.update({
             "in between, two-input consumers, delay-resolved rings) and every integer-microsecond choice of start offsets, "
             "steps, delays and end time, all feasible paths of the real scheduler with at most the stated number of updates "
             "are enumerated; on each, z3 discharges 'source already published up to the time that will be requested' at "
-            "every update and 'request inside the retained range' at every pull, and no path ends in a time/no-data error. "
-            "Bounded: topologies, update count; nothing is claimed beyond them.",
+            "every update and 'request inside the retained range' at every pull, and no path ends in a time/no-data error "
+            "(bounded: topologies, update count). In addition, ONE scheduling step of the real run loop from an ARBITRARY "
+            "symbolic state (any component times, steps, delays, delay-adapter memories; every listing order up to 4 "
+            "components; all pairs and, thorough, triples of adapter kinds in every ordering) shows the driver never "
+            "advances a component whose source lags -- no bound on the length of the run for that part. Two known findings "
+            "(fan-out at a pull-based output; delay adapter upstream of a push-based adapter) are listed in "
+            "known_findings.json.",
             "DESIGN.md section 4, C01"),
     "C02": (SCHED,
             "Same exploration; obligations: the component picked at each scheduling step is not ahead of any other, every "
@@ -60,8 +65,11 @@ CLAIMED.update({
             "push-based adapters) every event sequence up to the stated length with arbitrary integer-microsecond gaps "
             "and per-consumer non-decreasing request times is explored; every pull of the real Output equals the pull of "
             "an unlimited-history twin (same tag or same error class), and z3 discharges the retention bound once all "
-            "consumers have pulled. Bounded by sequence length; arbitrarily long runs are not claimed.",
-            "DESIGN.md section 4, C09 (a)"),
+            "consumers have pulled (bounded by sequence length). For direct consumers an INDUCTIVE STEP from an arbitrary "
+            "symbolic state of the real Output satisfying an explicit history invariant (1-4 consumers, 1-4 retained "
+            "publications, 'something was dropped' ghost) re-establishes the invariant after any event and shows no refusal "
+            "is caused by dropped history -- this part covers runs of any length, relative to the stated invariant.",
+            "DESIGN.md section 4, C09 and section 8"),
     "C11": (LINK,
             "For NextTime/PreviousTime/LinearTime/StepTime, for publish/request patterns with up to 4 publications and 3 "
             "requests, with symbolic real values, symbolic request times, concrete irregular as well as fully symbolic "
